@@ -250,6 +250,38 @@ func (e *enc) call(st *State, c *ssa.CallCommon, ins ssa.Instruction, pos token.
 		_ = e.valN(a)
 	}
 
+	// sequential lock discipline (no race analysis): a sync.Mutex is unlocked only while held by this
+	// activation and not locked twice; state is tracked per mutex address term
+	if fn != nil && len(args) > 0 {
+		switch externKeyOf(fn) {
+		case "sync.(*Mutex).Lock", "sync.(*Mutex).Unlock", "sync.(*RWMutex).Lock", "sync.(*RWMutex).Unlock":
+			addr := e.val(args[0])
+			cell := "Held_" + sanitize(addr)
+			if len(cell) > 60 {
+				cell = fmt.Sprintf("Held_%d_%s", len(addr), sanitize(addr)[len(sanitize(addr))-40:])
+			}
+			e.cellSortOf[cell] = "Bool"
+			if _, known := st.cells[cell]; !known {
+				// unknown at first use: whatever the caller left (free), recorded from now on
+				st.cells[cell] = e.get(st, cell, "Bool")
+			}
+			held := st.cells[cell]
+			txt := e.valText(args[0])
+			if strings.HasSuffix(externKeyOf(fn), ".Lock") {
+				if e.lockTouched[cell] {
+					e.oblige("lock", "relock:"+txt, not(held), pos, "Lock() of a mutex this function already holds")
+				}
+				st.cells[cell] = "true"
+			} else {
+				if e.lockTouched[cell] {
+					e.oblige("lock", "unlock:"+txt, held, pos, "Unlock() of a mutex that is not held")
+				}
+				st.cells[cell] = "false"
+			}
+			e.lockTouched[cell] = true
+		}
+	}
+
 	pre := st.clone()
 	// caller-side call-site assertions and callee preconditions
 	if contract != nil {
